@@ -216,6 +216,13 @@ def standard_parsing_functions(Block: Any, Tx: Any) -> list[Any]:
         b = f.read(6) + b"\0\0"
         return struct.unpack("<Q", b)[0]  # type: ignore[no-any-return]
 
+    def parse_optional_bool(f: IO[bytes]) -> bool | None:
+        # an optional trailing flag: absent, or one byte holding its value
+        b = f.read(1)
+        if len(b) == 0:
+            return None
+        return b != b"\0"
+
     def stream_int_6(f: IO[bytes], v: int) -> None:
         f.write(struct.pack("<Q", v)[:6])
 
@@ -236,7 +243,7 @@ def standard_parsing_functions(Block: Any, Tx: Any) -> list[Any]:
         (
             "O",
             (
-                lambda f: True if f.read(1) else False,
+                parse_optional_bool,
                 lambda f, v: f.write(b"" if v is None else struct.pack("B", v)),
             ),
         ),
